@@ -23,6 +23,7 @@ N10 getattr(x, "name") / setattr(x, "name", v) with an identifier literal  ==>  
 N11 boolean constants produced by substitution are folded (True or x, if False: ..., see _FoldBool)
 
 N12 module-level NAME = <number> (bound once) read in a function of the module where it is not shadowed  ==>  the number
+N14 <number> (+|-|*) <number>  ==>  the number;   not (a not in b) ==> a in b,  not (a is b) ==> a is not b;   `if not not x` ==> `if x`   (part of the _FoldBool pass)
 
 N2  dict.update with keywords / a literal dict on such an attribute, as a statement
         self._cache.update(a=x, b=y)      /     self._cache.update({"a": x, "b": y})
@@ -532,11 +533,50 @@ class _FoldBool(ast.NodeTransformer):
         n.values = out
         return n
 
+    _FLIP = {ast.In: ast.NotIn, ast.NotIn: ast.In, ast.Is: ast.IsNot, ast.IsNot: ast.Is}
+
     def visit_UnaryOp(self, n):
         self.generic_visit(n)
         if isinstance(n.op, ast.Not) and self._cb(n.operand):
             self.count += 1
             return ast.copy_location(ast.Constant(value=not n.operand.value), n)
+        # not (a not in b) -> a in b ;  not (a is None) -> a is not None     (`not in` / `is not` ARE the negations of `in` / `is`; both sides yield a bool)
+        if isinstance(n.op, ast.Not) and isinstance(n.operand, ast.Compare) and len(n.operand.ops) == 1 and type(n.operand.ops[0]) in self._FLIP:
+            self.count += 1
+            return ast.copy_location(ast.Compare(left=n.operand.left, ops=[self._FLIP[type(n.operand.ops[0])]()], comparators=n.operand.comparators), n)
+        return n
+
+    def _test(self, n):
+        # `not not x` where only the truth value is used
+        while isinstance(n.test, ast.UnaryOp) and isinstance(n.test.op, ast.Not) and isinstance(n.test.operand, ast.UnaryOp) and isinstance(n.test.operand.op, ast.Not):
+            n.test = n.test.operand.operand
+            self.count += 1
+
+    def visit_If(self, n):
+        n = self.generic_visit(n)
+        self._test(n)
+        return n
+
+    def visit_While(self, n):
+        n = self.generic_visit(n)
+        self._test(n)
+        return n
+
+    def visit_IfExp(self, n):
+        n = self.generic_visit(n)
+        self._test(n)
+        return n
+
+    def visit_BinOp(self, n):
+        # N14: arithmetic on two numeric literals (+, -, *), as CPython's own constant folding does
+        self.generic_visit(n)
+        a, b = n.left, n.right
+        if (isinstance(n.op, (ast.Add, ast.Sub, ast.Mult)) and all(isinstance(x, ast.Constant) and isinstance(x.value, (int, float)) and not isinstance(x.value, bool) for x in (a, b))):
+            v = a.value + b.value if isinstance(n.op, ast.Add) else a.value - b.value if isinstance(n.op, ast.Sub) else a.value * b.value
+            if isinstance(v, int) and abs(v) > 10 ** 12:
+                return n
+            self.count += 1
+            return ast.copy_location(ast.Constant(value=v), n)
         return n
 
     def _body(self, stmts):
